@@ -1,0 +1,49 @@
+//! Child module of `leader_follower/leader.rs` (feature `verif`): the branch bodies of the
+//! leader loop, callable one at a time.
+
+use crate::{
+    Config, Worterbuch,
+    error::WorterbuchAppResult,
+    leader_follower::{ClientWriteCommand, StateSync},
+    server::common::WbFunction,
+};
+use std::ops::ControlFlow;
+use tokio::sync::{mpsc, oneshot};
+use worterbuch_common::PStateEvent;
+
+pub type FollowerTxs = Vec<(usize, mpsc::Sender<ClientWriteCommand>)>;
+
+pub async fn try_forward_api_call(
+    recv: Option<WbFunction>,
+    worterbuch: &mut Worterbuch,
+    client_write_txs: &mut FollowerTxs,
+    dead: &mut Vec<usize>,
+) -> WorterbuchAppResult<ControlFlow<()>> {
+    super::try_forward_api_call(recv, worterbuch, client_write_txs, dead).await
+}
+
+pub async fn try_forward_follower_connected(
+    recv: Option<oneshot::Sender<(StateSync, mpsc::Receiver<ClientWriteCommand>)>>,
+    worterbuch: &mut Worterbuch,
+    client_write_txs: &mut FollowerTxs,
+    config: &Config,
+    tx_id: &mut usize,
+) -> WorterbuchAppResult<ControlFlow<()>> {
+    super::try_forward_follower_connected(recv, worterbuch, client_write_txs, config, tx_id).await
+}
+
+pub async fn try_forward_grave_goods_change(
+    recv: Option<PStateEvent>,
+    client_write_txs: &mut FollowerTxs,
+    dead: &mut Vec<usize>,
+) -> WorterbuchAppResult<ControlFlow<()>> {
+    super::try_forward_grave_goods_change(recv, client_write_txs, dead).await
+}
+
+pub async fn try_forward_last_will_change(
+    recv: Option<PStateEvent>,
+    client_write_txs: &mut FollowerTxs,
+    dead: &mut Vec<usize>,
+) -> WorterbuchAppResult<ControlFlow<()>> {
+    super::try_forward_last_will_change(recv, client_write_txs, dead).await
+}
